@@ -300,8 +300,28 @@ class Slotted:
         self.a, self.b = 1, 'two'
 
 
+JOB_EXC = {'CancelledError': None, 'KeyboardInterrupt': KeyboardInterrupt, 'SystemExit': SystemExit,
+           'GeneratorExit': GeneratorExit}
+
+
+def job_factory(exc, msg):
+    """a callable whose result cannot be turned into text: `__str__` raises a BaseException (message may be empty)"""
+    import asyncio
+    cls = asyncio.CancelledError if exc == 'CancelledError' else JOB_EXC[exc]
+
+    class Job:
+        def __str__(self):
+            raise cls(msg) if msg else cls()
+
+    def current_job():
+        return Job()
+    return current_job
+
+
 def mat(spec, top):
     k = spec['k']
+    if k == 'jobfactory':
+        return job_factory(spec['exc'], spec['msg'])
     if k == 'int':
         return spec['v']
     if k == 'float':
@@ -492,6 +512,47 @@ class TokenProvider:
         return [tuple(kv) for kv in json.loads(self._config.C08_MD)]
 
 
+class Script:
+    """what ScriptedProvider does on each call (one script per run_auth)"""
+    calls = 0
+    raised = 0
+    fail_first = 0
+    gate_first = False
+    md = []
+    entered = threading.Event()
+    release = threading.Event()
+
+    @classmethod
+    def reset(cls, cfg, gate):
+        cls.calls = 0
+        cls.raised = 0
+        cls.fail_first = int(cfg.get('fail_first') or 0)
+        cls.gate_first = gate
+        cls.md = [tuple(kv) for kv in (cfg.get('custom_md') or [])]
+        cls.entered = threading.Event()
+        cls.release = threading.Event()
+
+
+class ScriptedProvider:
+    """auth provider that cannot supply its token the first `fail_first` times it is asked (token not available yet),
+    and can be parked inside provide() on its first call (forced two-thread schedule)"""
+
+    def __init__(self, config):
+        self._config = config
+
+    def provide(self):
+        Script.calls += 1
+        n = Script.calls
+        if n <= Script.fail_first:
+            Script.raised += 1
+            raise IOError('token is not available yet (call %d)' % n)
+        if n == 1 and Script.gate_first:
+            Script.entered.set()
+            if not Script.release.wait(30):
+                raise core.Infra('provider gate was never released')
+        return list(Script.md)
+
+
 class FakeChannel:
     def __init__(self, rec):
         self.rec = rec
@@ -580,6 +641,7 @@ def run_auth(case):
             custom[ck] = cfg[k]
     config = ConfigService(custom, tracepoints=TracepointConfigService())
     config.resource = Resource({k: mat_attr(v) for k, v in case['resource']})
+    Script.reset(cfg, bool(case.get('concurrent')))
     rec = []
     if case.get('transport') == 'grpc':
         lb = loopback()
@@ -592,28 +654,62 @@ def run_auth(case):
         grpc = GRPCService(config)
         grpc.channel = FakeChannel(rec)
     out = []
+
+    def do(i, op):
+        if op == 'poll':
+            LongPoll(config, grpc).poll()
+        else:
+            spec = case['snaps'][i % len(case['snaps'])]
+            PushService(grpc, None)._push_task(hand_snapshot(spec))
+
+    def entry(r, op):
+        return {'kind': 'polled' if op == 'poll' else 'pushed', 'metadata': r['metadata'],
+                'has_metadata_kw': r['has_metadata_kw'], 'request': dump_msg(r['request']), 'op': op}
+
+    if case.get('concurrent'):
+        # thread A runs ops[0] and is parked inside provider.provide(); meanwhile this thread runs ops[1]
+        errs = []
+
+        def thread_a():
+            try:
+                do(0, case['ops'][0])
+            except BaseException as e:  # noqa: B902
+                errs.append(f'{type(e).__name__}: {e}')
+        ta = threading.Thread(target=thread_a, daemon=True)
+        ta.start()
+        try:
+            if not Script.entered.wait(30):
+                raise core.Infra('thread A never asked the provider')
+            try:
+                do(1, case['ops'][1])
+            except BaseException as e:  # noqa: B902
+                errs.append(f'{type(e).__name__}: {e}')
+        finally:
+            Script.release.set()
+            ta.join(30)
+        if ta.is_alive():
+            raise core.Infra('thread A did not finish')
+        kinds = {'poll': 'PollRequest', 'push': 'Snapshot'}
+        for r in rec:
+            op = 'poll' if r['request'].DESCRIPTOR.name == 'PollRequest' else 'push'
+            out.append(entry(r, op))
+        for e in errs:
+            out.append({'kind': 'raised', 'error': e, 'op': '?', 'provider_raised': False})
+        return {'wire': out, 'stored_resource': [[T(k), pyval(v)] for k, v in config.resource.attributes.items()],
+                'provider_calls': Script.calls}
     for i, op in enumerate(case['ops']):
         n = len(rec)
+        raised_before = Script.raised
         try:
-            if op == 'poll':
-                LongPoll(config, grpc).poll()
-            else:
-                spec = case['snaps'][i % len(case['snaps'])]
-                PushService(grpc, None)._push_task(hand_snapshot(spec))
+            do(i, op)
         except BaseException as e:  # noqa: B902
-            out.append({'kind': 'raised', 'error': f'{type(e).__name__}: {e}', 'op': op})
+            out.append({'kind': 'raised', 'error': f'{type(e).__name__}: {e}', 'op': op,
+                        'provider_raised': Script.raised > raised_before, 'sent': len(rec) - n})
             continue
         if len(rec) == n:
             out.append({'kind': 'dropped', 'op': op})
             continue
-        r = rec[-1]
-        if op == 'poll':
-            req = r['request']
-            out.append({'kind': 'polled', 'metadata': r['metadata'], 'has_metadata_kw': r['has_metadata_kw'],
-                        'request': dump_msg(req), 'op': op})
-        else:
-            out.append({'kind': 'pushed', 'metadata': r['metadata'], 'has_metadata_kw': r['has_metadata_kw'],
-                        'request': dump_msg(r['request']), 'op': op})
+        out.append(entry(rec[-1], op))
     if case.get('transport') == 'grpc':
         grpc.channel.close()
     return {'wire': out, 'stored_resource': [[T(k), pyval(v)] for k, v in config.resource.attributes.items()]}
@@ -699,6 +795,24 @@ def expected_metadata(cfg):
     return [list(kv) for kv in (cfg.get('custom_md') or [])]
 
 
+def expected_provider_failures(case):
+    """which operations find the provider failing (the statement's side: the provider is asked once per operation until
+    it has answered; its first `fail_first` answers are failures)"""
+    k = int(case['cfg'].get('fail_first') or 0)
+    out, asked, answered = [], 0, False
+    for _ in case['ops']:
+        if answered or not case['cfg'].get('provider'):
+            out.append(False)
+            continue
+        asked += 1
+        if asked <= k:
+            out.append(True)
+        else:
+            out.append(False)
+            answered = True
+    return out
+
+
 def oracle(case, obs):
     k = case['kind']
     v = []
@@ -724,7 +838,20 @@ def oracle(case, obs):
             v.append('KeyValue does not survive serialisation')
         return v
     exp = expected_metadata(case['cfg'])
+    if case.get('concurrent'):
+        sent = [w for w in obs['wire'] if w['kind'] in ('polled', 'pushed')]
+        if sorted(w['op'] for w in sent) != sorted(case['ops']):
+            v.append(f'two overlapping operations {case["ops"]}: requests sent {[w["op"] for w in sent]}, '
+                     f'errors {[w.get("error") for w in obs["wire"] if w["kind"] == "raised"]}')
+        for w in sent:
+            if w['metadata'] != exp:
+                v.append(f'{w["op"]} request sent with metadata {w["metadata"]} while another thread was inside the '
+                         f'provider; the provider supplies {exp}')
+        return v
+    fails = expected_provider_failures(case)
     for i, w in enumerate(obs['wire']):
+        if w['kind'] == 'raised' and fails[i] and w.get('provider_raised') and not w.get('sent'):
+            continue                # the provider could not answer: nothing was sent, nothing may be cached
         if w['kind'] == 'raised':
             v.append(f'operation {i} ({w["op"]}) raised: {w["error"]}')
         elif w['kind'] == 'dropped':
@@ -759,6 +886,12 @@ def model_request(case, obs):
         return {'op': 'value', 'v': obs['stored']}
     ops = []
     cfg = case['cfg']
+    mc = {'provider': cfg.get('provider'), 'username': cfg.get('username'), 'password': cfg.get('password')}
+    if cfg.get('provider') and not cfg['provider'].endswith('BasicAuthProvider'):
+        mc['custom'] = cfg.get('custom_md') or []
+    if case.get('concurrent'):
+        # A looks (miss, asks), B looks (miss, asks), B stores + sends, A stores + sends
+        return {'op': 'auth_conc', 'cfg': mc, 'threads': 2, 'sched': [0, 1, 1, 0]}
     for i, (op, w) in enumerate(zip(case['ops'], obs['wire'])):
         if op == 'poll':
             ts = w['request']['ts_nanos'] if w['kind'] == 'polled' else 1
@@ -766,10 +899,7 @@ def model_request(case, obs):
         else:
             spec = case['snaps'][i % len(case['snaps'])]
             ops.append({'push': dump_snapshot(hand_snapshot(spec))})
-    mc = {'provider': cfg.get('provider'), 'username': cfg.get('username'), 'password': cfg.get('password')}
-    if cfg.get('provider') and not cfg['provider'].endswith('BasicAuthProvider'):
-        mc['custom'] = cfg.get('custom_md') or []
-    return {'op': 'auth', 'cfg': mc, 'ops': ops}
+    return {'op': 'auth', 'cfg': mc, 'ops': ops, 'fail_first': int(cfg.get('fail_first') or 0)}
 
 
 def compare(case, obs, resp):
@@ -791,6 +921,11 @@ def compare(case, obs, resp):
             d.append('model rejects a value the implementation sent')
         return d
     d = []
+    if case.get('concurrent'):
+        got = [w['metadata'] for w in obs['wire'] if w['kind'] in ('polled', 'pushed')]
+        if got != resp['sent']:
+            d.append(f'two threads: metadata sent, model {resp["sent"]} implementation {got}')
+        return d
     if len(resp['wire']) != len(obs['wire']):
         return ['wire length differs']
     for i, (a, b) in enumerate(zip(resp['wire'], obs['wire'])):
@@ -901,6 +1036,15 @@ def gen_snapshot(rng, stream='main'):
     for _ in range(rng.choice([0, 0, 1, 2, 3])):
         watches.append(rng.choice([names[0], 'len(__v)', 'nope', '1/0', '[%s] * 3' % names[-1], '"é😀"', 'marker',
                                    '%s is None' % names[0], 'list(range(40))']))
+    if rng.random() < 0.3:
+        # a watch / log field whose value fails while it is turned into text, with an empty or a non-empty message
+        names = names + ['mkjob']
+        locs.append({'k': 'jobfactory', 'exc': rng.choice(sorted(JOB_EXC)), 'msg': rng.choice(['', '', 'stopped', 'é'])})
+        r = rng.random()
+        if r < 0.7:
+            watches.insert(rng.randint(0, len(watches)), 'mkjob()')
+        if r > 0.5:
+            args['log_msg'] = 'job={mkjob()} done'
     case = {'kind': 'snapshot', 'stream': stream, 'names': names, 'nested': rng.random() < 0.5, 'locals': locs,
             'tp_id': rng.choice(['tp-1', 'é-tp', 'a' * 40]), 'args': args, 'watches': watches,
             'attrs': [gen_attr(rng, i) for i in range(rng.choice([0, 0, 1, 2, 4]))],
@@ -970,6 +1114,17 @@ def gen_auth(rng, stream='main'):
               'resource': [gen_attr(rng, 20)] if rng.random() < 0.3 else []} for i in range(2)]
     case = {'kind': 'auth', 'stream': stream, 'cfg': cfg, 'ops': ops, 'snaps': snaps,
             'resource': [gen_attr(rng, 30 + i) for i in range(rng.choice([0, 1, 2]))]}
+    if stream == 'main' and rng.random() < 0.25:
+        # the provider cannot answer the first k times it is asked (token not there yet), then recovers
+        cfg['provider'] = 'props.c08.ScriptedProvider'
+        cfg['custom_md'] = rng.choice([[['authorization', 'Bearer s3cr3t'], ['x-tenant', 'acme']], [['authorization', 'Bearer t']]])
+        cfg['fail_first'] = rng.choice([0, 1, 1, 2, 3])
+        case['ops'] = [rng.choice(['poll', 'push']) for _ in range(rng.randint(2, 6))]
+        if rng.random() < 0.35:
+            cfg['fail_first'] = 0
+            case['concurrent'] = True
+            case['ops'] = rng.choice([['poll', 'push'], ['push', 'poll'], ['push', 'push'], ['poll', 'poll']])
+            return case
     if rng.random() < 0.2:
         # through a real channel to a loopback gRPC server (gRPC metadata must be ASCII with lower-case keys)
         case['transport'] = 'grpc'
@@ -1033,8 +1188,20 @@ def corpus():
             'args': {'frame_type': 'all_frame', 'log_msg': 'v={v0} {nope}'}, 'watches': ['v0', '1/0'],
             'attrs': [['t', {'tuple': ['a', 'b']}], ['l', [1, 2]], ['b', True], ['f', 0.5]],
             'resource': [['service.name', 'svc'], ['tags', ['x', 'y']]]}
+    emptyerr = dict(base, names=['v0', 'mkjob'], nested=False, attrs=[], resource=[],
+                    locals=[{'k': 'int', 'v': 3}, {'k': 'jobfactory', 'exc': 'CancelledError', 'msg': ''}],
+                    args={'log_msg': 'job={mkjob()}'}, watches=['v0', 'mkjob()', '1/0'])
     return [
         base,
+        emptyerr,                                                               # an error watch whose text is ''
+        {'kind': 'auth', 'stream': 'main', 'cfg': {'provider': 'props.c08.ScriptedProvider', 'fail_first': 1,
+                                                   'custom_md': [['authorization', 'Bearer s3cr3t'], ['x-tenant', 'acme']]},
+         'ops': ['poll', 'poll', 'push', 'poll'], 'resource': [['service.name', 'svc']],
+         'snaps': [{'tp_id': 'tp0', 'ts': 1_700_000_000_000_000_000, 'attrs': [], 'resource': []}]},
+        {'kind': 'auth', 'stream': 'main', 'concurrent': True,
+         'cfg': {'provider': 'props.c08.ScriptedProvider', 'custom_md': [['authorization', 'Bearer s3cr3t']]},
+         'ops': ['poll', 'push'], 'resource': [],
+         'snaps': [{'tp_id': 'tp0', 'ts': 1_700_000_000_000_000_000, 'attrs': [], 'resource': []}]},
         {'kind': 'value', 'stream': 'main', 'v': {'tuple': ['a', 'b']}},        # D11
         {'kind': 'value', 'stream': 'main', 'v': True},
         {'kind': 'value', 'stream': 'seq-none', 'v': ['x', None, 'y']},          # fixed: 3b003de
@@ -1085,7 +1252,9 @@ def label(case, obs):
                       else obs['any']['f'])
     p = case['cfg'].get('provider')
     return pre + ('grpc-loopback/' if case.get('transport') == 'grpc' else '') + (
-        'no-provider' if not p else 'basic' if p.endswith('BasicAuthProvider') else 'custom')
+        'two-threads/' if case.get('concurrent') else '') + (
+        'no-provider' if not p else 'basic' if p.endswith('BasicAuthProvider') else
+        'scripted-fail%d' % int(case['cfg'].get('fail_first') or 0) if p.endswith('ScriptedProvider') else 'custom')
 
 
 def nontrivial(case, obs):
@@ -1133,7 +1302,7 @@ def shrink(case):
                 c = dict(case)
                 c['locals'] = case['locals'][:i] + [{'k': 'int', 'v': 1}] + case['locals'][i + 1:]
                 yield c
-    elif k == 'auth':
+    elif k == 'auth' and not case.get('concurrent'):
         for i in range(len(case['ops'])):
             if len(case['ops']) > 1:
                 yield dict(case, ops=case['ops'][:i] + case['ops'][i + 1:])
